@@ -47,24 +47,28 @@ PrefixEq(a, b, bits) ==
        ELSE a[i] \div Pow2(8 - (bits - lo)) = b[i] \div Pow2(8 - (bits - lo))
 
 \* ---------- one rule, first match ------------------------------------------
-HostMatch(r, q) ==
+\* n = Norm(q.host); rule patterns are normalised once, when the Rules event is consumed
+HostMatch(r, q, n) ==
   CASE r.kind = "all"    -> TRUE
-    [] r.kind = "exact"  -> Norm(q.host) = Norm(r.pat)
-    [] r.kind = "suffix" -> SuffixMatch(Norm(r.pat), Norm(q.host))
-    [] r.kind = "wild"   -> WildMatch(Norm(r.pat), Norm(q.host))
+    [] r.kind = "exact"  -> n = r.pat
+    [] r.kind = "suffix" -> SuffixMatch(r.pat, n)
+    [] r.kind = "wild"   -> WildMatch(r.pat, n)
     [] r.kind = "ip"     -> (q.v4 # <<>> /\ q.v4 = r.ip) \/ (q.v6 # <<>> /\ q.v6 = r.ip)
     [] r.kind = "cidr"   -> (q.v4 # <<>> /\ PrefixEq(q.v4, r.ip, r.bits)) \/ (q.v6 # <<>> /\ PrefixEq(q.v6, r.ip, r.bits))
     [] OTHER             -> FALSE
 
-RuleMatch(r, q) ==
+RuleMatch(r, q, n) ==
   /\ r.proto = 0 \/ r.proto = q.proto
   /\ r.lo = 0 \/ (r.lo <= q.port /\ q.port <= r.hi)
-  /\ HostMatch(r, q)
+  /\ HostMatch(r, q, n)
 
 NoAnswer == [out |-> 0, hij |-> <<>>]
+\* rules: pattern-normalised rule list
 First(rules, q) ==
-  LET i == SelectInSeq(rules, LAMBDA r : RuleMatch(r, q)) IN
-  IF i = 0 THEN NoAnswer ELSE [out |-> rules[i].out, hij |-> rules[i].hij]
+  LET n == Norm(q.host)
+      i == SelectInSeq(rules, LAMBDA r : RuleMatch(r, q, n))
+  IN IF i = 0 THEN NoAnswer ELSE [out |-> rules[i].out, hij |-> rules[i].hij]
+NormRules(rs) == [i \in 1..Len(rs) |-> [rs[i] EXCEPT !.pat = Norm(rs[i].pat)]]
 
 \* ---------- events ---------------------------------------------------------
 Q(e, proto) == [host |-> e.host, v4 |-> e.v4, v6 |-> e.v6, proto |-> proto, port |-> e.port]
@@ -93,7 +97,7 @@ EngineClauses(m, e) ==
 
 MonStep(m, e, ln) ==
   CASE e.ev = "Reset"  -> [MonInit EXCEPT !.viol = m.viol]
-    [] e.ev = "Rules"  -> [m EXCEPT !.rules = e.rules, !.dflt = e.dflt]
+    [] e.ev = "Rules"  -> [m EXCEPT !.rules = NormRules(e.rules), !.dflt = e.dflt]
     [] e.ev = "Match"  -> [m EXCEPT !.viol = VAll(m.viol, e, ln, MatchClauses(m, e))]
     [] e.ev = "Engine" -> [m EXCEPT !.viol = VAll(m.viol, e, ln, EngineClauses(m, e))]
     [] e.ev = "Panic"  -> [m EXCEPT !.viol = V(m.viol, e, ln, "Panic", TRUE)]
